@@ -35,6 +35,7 @@ _real_get_ident = _thread.get_ident
 _allocate = _thread.allocate_lock
 
 NEW, RUNNABLE, BLOCKED, DONE = 'new', 'runnable', 'blocked', 'done'
+FULL_LOG = None  # set to a list by debugging tools to keep every event
 EPOCH = 1_700_000_000.0
 
 
@@ -177,6 +178,8 @@ class Sim:
     self.n_events += 1
     self.h.update(repr(ev).encode())
     self.tail.append(ev)
+    if FULL_LOG is not None:
+      FULL_LOG.append(ev)
 
   def count(self, key, n=1):
     self.counters[key] += n
@@ -582,7 +585,11 @@ class SimLock:
   def __init__(self):
     self._locked = False
     self._waiters = []
-    self._used = False
+    # The very first acquire of a lock created inside a run is not a
+    # scheduling point (nobody else can know the lock yet).  Locks created
+    # outside a run live across runs and always yield, so that a run behaves
+    # the same whether it is the first or the n-th of its process.
+    self._used = Sim.current is None
 
   def acquire(self, blocking=True, timeout=-1):
     s = Sim.current
@@ -680,6 +687,16 @@ class SimThread:
     self._t = None
     self._started_flag = False
     self._sim = None
+    # Deterministic hash: ThreadPoolExecutor keeps its threads in a set and
+    # joins them in iteration order.
+    SimThread._counter += 1
+    self._serial = SimThread._counter
+
+  def __hash__(self):
+    return self._serial
+
+  def __eq__(self, other):
+    return self is other
 
   @property
   def name(self):
@@ -863,8 +880,13 @@ def set_fine(on):
 # --------------------------------------------------------------------------
 
 
+_future_serial = [0]
+
+
 def reset_run_state():
   _sim_threads.clear()
+  SimThread._counter = 0  # pylint: disable=protected-access
+  _future_serial[0] = 0
 
 
 _installed = False
@@ -911,6 +933,18 @@ def install():
   time.perf_counter = sim_monotonic
   time.time_ns = sim_time_ns
   time.monotonic_ns = sim_monotonic_ns
+  # concurrent.futures keeps futures in sets (wait, as_completed): give them
+  # a hash that does not depend on memory addresses.
+  _orig_future_init = cfb.Future.__init__
+
+  def _future_init(self):
+    _orig_future_init(self)
+    _future_serial[0] += 1
+    self._sim_serial = _future_serial[0]
+
+  cfb.Future.__init__ = _future_init
+  cfb.Future.__hash__ = lambda self: getattr(self, '_sim_serial', 0)
+  cfb.Future.__eq__ = lambda self, other: self is other
   # Module-level objects created before the patch that are held across
   # scheduling points must be simulated too.
   cft._global_shutdown_lock = SimLock()  # pylint: disable=protected-access
